@@ -2280,6 +2280,10 @@ class AnsiStr(str):
             return False
         return str(self) == str(value)
 
+    def __hash__(self) -> int:
+        ''' Equal AnsiStr objects have equal string values; defining __eq__ alone would make this str unhashable '''
+        return str.__hash__(self)
+
     def __contains__(self, value:Union[str,'AnsiString','AnsiStr',Any]) -> bool:
         ''' Returns True iff the str or the underlying str of an AnsiString is in this AnsiString '''
         return self._s.__contains__(value)
